@@ -163,6 +163,7 @@ const preludeCommon = `
 (declare-fun sconcat (Str Str) Str)
 (declare-fun ssub (Str Int Int) Str)
 (declare-fun rootid (Ref) Int)
+(declare-fun rtype (Ref) Int)
 (declare-fun box_fp ((_ FloatingPoint 11 53)) Int)
 (declare-fun unbox_fp (Int) (_ FloatingPoint 11 53))
 (declare-fun box_str (Str) Int)
